@@ -6,11 +6,11 @@ CFG = {
 "technique": "bounded-exhaustive enumeration of PLY header layouts and bodies produced by an independent reference encoder (harness/props/plyref, written from the format specification) in ascii / little-endian / big-endian; the real reader must load the mesh the file describes (vertex records in order, conventional groups as attributes, fan triangulation of quads, per-corner texture coordinates)",
 "jobs": [{"variant": "plain-c08", "id": "C08"}],
 "engine": "enum",
-"level_text": "Each dimension of the grammar is exhausted and crossed where the reader couples them: every permutation of every set of complete property groups (x,y,z / nx,ny,nz / red,green,blue[,alpha] / s,t / two unknown scalars) with <=5 (thorough <=6) properties x every type in {uchar,int,float,double} per group x 3 encodings x {point cloud, one face}; all 14 properties in 16 orders (rotations, reverse, round-robin) x typings; both spellings of every type on vertex and list properties; comment/obj_info lines (8 texts incl. keyword look-alikes) at every header position alone and all at once x LF/CRLF; faces: count type {uchar,int,uint} x index type {int,uint} x vertex_indices/vertex_index x every sequence of <=2 (thorough <=3) faces from a menu of 3 triangles and 2 quads x texcoord list absent/after/before the indices x an unknown extra list x 0..4 vertices; vertex counts 0..3 with and without an (empty) face element. Each evaluation first checks the reference encoder against the reference parser.",
+"level_text": "Each dimension of the grammar is exhausted and crossed where the reader couples them: every permutation of every set of complete property groups (x,y,z / nx,ny,nz / red,green,blue[,alpha] / s,t / two unknown scalars) with <=5 (thorough <=6) properties x every type in {uchar,int,float,double} per group x 3 encodings x {point cloud, one face}; all 14 properties in 16 orders (rotations, reverse, round-robin) x typings; both spellings of every type on vertex and list properties; comment/obj_info lines (8 texts incl. keyword look-alikes) at every header position alone and all at once x LF/CRLF; faces: count type {uchar,int,uint} x index type {int,uint} x vertex_indices/vertex_index x every sequence of <=2 (thorough <=3) faces from a menu of 3 triangles and 2 quads x texcoord list absent/after/before the indices x an unknown extra list x 0..4 vertices; vertex counts 0..3 with and without an (empty) face element; size ladder: files with n vertex records and files with n faces (triangles and quads mixed, non-identity corner orders, uchar / int / uint list counts, one variant with a texcoord list) for n = 2^k-1, 2^k, 2^k+1, 3*2^(k-1)+1, k=2..15 (thorough 2..17), double positions, float normals, 8-bit colours, an int scalar, unique records without a power-of-two period, all three encodings. Each evaluation first checks the reference encoder against the reference parser.",
 "level_note": "Trusted: harness/props/plyref. Numbers: binary values are compared bit-exactly (float32 image, exact double and int, k/255 for uchar), ascii decimals at the stored type's precision (float32 for float, 1e-15 relative for double, exact int). Triangles are compared as a multiset up to corner rotation. Mixed scalar types inside one group (documented unsupported) are run and reported only. Alternative vocabularies (px/py/pz, r/g/b, diffuse_*), other element orders and additional elements are not enumerated (the statement does not name them).",
 "rule": "one evaluation = one reference-encoded file loaded by ply.ReadMesh; non-trivial when the file has at least one vertex record and one vertex property; distinct by the file's bytes",
 "assumptions": COMMON_ASSUME + [
-    "the reader's offset bookkeeping depends on property order, types and counts only, so 0..4 vertices / 0..3 faces expose every distinct behaviour (small-scope hypothesis)",
+    "the reader's offset bookkeeping depends on property order, types and counts only, so 0..4 vertices / 0..3 faces expose every distinct behaviour (small-scope hypothesis); size thresholds are probed only on the ladder (around powers of two up to 2^15, thorough 2^17) and on one layout",
 ],
 "budget": {"quick": 60, "thorough": 900},
     }
